@@ -15,10 +15,12 @@ package ftp
 
 import (
 	"crypto/tls"
+	"errors"
 	"net"
 	"strconv"
 	"strings"
 	"sync"
+	"time"
 )
 
 // A data socket is used to send non-control data between the client and
@@ -91,7 +93,14 @@ func (socket *ftpActiveSocket) Close() error {
 	return socket.conn.Close()
 }
 
+// passiveAcceptTimeout bounds the wait for the client to connect to a passive
+// port.
+const passiveAcceptTimeout = 30 * time.Second
+
 type ftpPassiveSocket struct {
+	mu        sync.Mutex
+	listener  net.Listener
+	closed    bool
 	conn      net.Conn
 	port      int
 	host      string
@@ -139,7 +148,18 @@ func (socket *ftpPassiveSocket) Write(p []byte) (n int, err error) {
 	return socket.conn.Write(p)
 }
 
+// Close releases the listening socket (ending a pending Accept) and the
+// accepted data connection, if any.
 func (socket *ftpPassiveSocket) Close() error {
+	socket.mu.Lock()
+	defer socket.mu.Unlock()
+
+	socket.closed = true
+
+	if socket.listener != nil {
+		socket.listener.Close()
+	}
+
 	if socket.conn != nil {
 		return socket.conn.Close()
 	}
@@ -154,11 +174,17 @@ func (socket *ftpPassiveSocket) GoListenAndServe(sessionid string) (err error) {
 	}
 
 	var listener net.Listener
-	listener, err = net.ListenTCP("tcp", laddr)
+	tcpListener, err := net.ListenTCP("tcp", laddr)
 	if err != nil {
 		log.Debug(sessionid, err.Error())
 		return
 	}
+
+	// a client that never connects must not keep the port and the
+	// accepting goroutine for ever
+	tcpListener.SetDeadline(time.Now().Add(passiveAcceptTimeout))
+
+	listener = tcpListener
 
 	add := listener.Addr()
 	parts := strings.Split(add.String(), ":")
@@ -175,23 +201,36 @@ func (socket *ftpPassiveSocket) GoListenAndServe(sessionid string) (err error) {
 		listener = tls.NewListener(listener, socket.tlsConfig)
 	}
 
+	socket.listener = listener
+
 	go func() {
 		conn, err := listener.Accept()
-		socket.wg.Done()
+
+		// one data connection per passive port: stop listening
+		listener.Close()
+
+		socket.mu.Lock()
 		if err != nil {
 			socket.err = err
-			return
+		} else if socket.closed {
+			conn.Close()
+			socket.err = errors.New("passive socket closed")
+		} else {
+			socket.err = nil
+			socket.conn = conn
 		}
-		socket.err = nil
-		socket.conn = conn
+		socket.mu.Unlock()
+
+		socket.wg.Done()
 	}()
 	return nil
 }
 
 func (socket *ftpPassiveSocket) waitForOpenSocket() error {
-	if socket.conn != nil {
-		return nil
-	}
 	socket.wg.Wait()
+
+	socket.mu.Lock()
+	defer socket.mu.Unlock()
+
 	return socket.err
 }
